@@ -6,7 +6,7 @@ from __future__ import annotations
 import itertools
 
 from . import sem
-from .snapshot import REACTION, STEREO, mk_desc, snap
+from .snapshot import REACTION, STEREO, fresh, mk_desc, snap
 
 _SYM = (
     "H He Li Be B C N O F Ne Na Mg Al Si P S Cl Ar K Ca Sc Ti V Cr Mn Fe Co Ni Cu Zn Ga Ge As Se Br Kr Rb Sr Y Zr Nb Mo "
@@ -233,7 +233,7 @@ def apply_model(M, cls, op):
 
 def apply_real(g, op):
     """execute op on the real object; returns ('ok', value) or ('raised', exception type name)"""
-    name, *a = op
+    name, *a = fresh(op)
     try:
         if name == "add_atom":
             r = g.add_atom(a[0], a[1], **(a[2] if len(a) > 2 else {}))
